@@ -459,7 +459,18 @@ namespace hgraph
         {
             auto typed = view.as<OrderedReduceNodeView>();
             auto &storage = *MemoryUtils::cast<OrderedReduceStorage>(typed.internal_storage());
+            // Every combiner gets its stop even when an earlier one throws; the
+            // first failure is rethrown (stop_generation then finds nothing started).
+            FirstExceptionRecorder exceptions;
+            auto &bank = storage.banks[storage.current_bank];
+            for (std::size_t index = storage.live_count; index-- > 0;)
+            {
+                auto *entry = bank.entry_at(index);
+                if (entry == nullptr || !entry->graph.has_value() || !entry->graph.view().started()) { continue; }
+                exceptions.capture([&] { entry->graph.view().stop(); });
+            }
             storage.stop_generation(storage.current_bank, storage.live_count);
+            exceptions.rethrow_if_any();
         }
 
         void validate_ordered_reduce_spec(
